@@ -2,7 +2,9 @@ use super::super::{LastState, LightClientProtocol, Status, StatusCode};
 use ckb_constant::sync::MAX_TIP_AGE;
 use ckb_network::{CKBProtocolContext, PeerIndex};
 use ckb_systemtime::unix_time_as_millis;
-use ckb_types::{packed, prelude::*, utilities::merkle_mountain_range::VerifiableHeader};
+use ckb_types::{
+    packed, prelude::*, utilities::merkle_mountain_range::VerifiableHeader, U256,
+};
 use log::{debug, trace};
 
 pub(crate) struct SendLastStateProcess<'a> {
@@ -60,7 +62,17 @@ impl<'a> SendLastStateProcess<'a> {
 
                 if prev_last_state.total_difficulty() < last_state.total_difficulty() {
                     if let Some(prove_state) = peer_state.get_prove_state() {
-                        if prove_state.is_parent_of(&last_state) {
+                        // The parent chain root of the new last state is NOT proved, so check if its
+                        // total difficulty is consistent with the proved parent block.
+                        let parent_total_difficulty: U256 = last_state
+                            .as_ref()
+                            .parent_chain_root()
+                            .total_difficulty()
+                            .unpack();
+                        if prove_state.is_parent_of(&last_state)
+                            && parent_total_difficulty
+                                == prove_state.get_last_header().total_difficulty()
+                        {
                             trace!("peer {}: new last state could be trusted", self.peer_index);
                             let last_n_blocks = self.protocol.last_n_blocks() as usize;
                             let child_prove_state =
